@@ -10,3 +10,9 @@ Theorem C20_binary_history : forall cfg cfg' ops s,
   Forall (fun r => snd r = Ok) (btrace cfg s ops) -> btrace cfg' s ops = btrace cfg s ops.
 Proof. intros. apply binary_assert_irrelevant_trace. assumption. Qed.
 Print Assumptions C20_binary_history.
+
+(* hook failures included: the switch matters only where a type/loop check rejects *)
+Theorem C20_binary_guards_pure : forall cfg s o,
+  snd (bstep cfg_off s o) <> Err Unmodelled -> bstep cfg s o = bstep cfg_off s o.
+Proof. exact binary_guards_pure. Qed.
+Print Assumptions C20_binary_guards_pure.
